@@ -78,5 +78,43 @@ def pruneRegraft (c : Cfg) (x : T) : Dist T :=
           [T.mk' (.cons sub.1 sub.2 pruned) x.out]
         Dist.categorical (cands.map fun t => (t, pOneOf c t)))
 
+/-- the clone that is the parent of the clone holding `key` (none when that clone is top-level) -/
+def parentOf (key : Nat) : DF → Option (List Nat × DF)
+  | .nil => none
+  | .cons d k s =>
+    if (k.roots.any fun r => r.1.contains key) then some (d, k)
+    else match parentOf key k with
+      | some p => some p
+      | none => parentOf key s
+
+/-- graft every root of `sub` under the clone holding `key`, or at the top level when `key` is none -/
+def attachAll (key : Option Nat) (sub : List (List Nat × DF)) (f : DF) : DF :=
+  match key with
+  | none => sub.foldr (fun r acc => .cons r.1 r.2 acc) f
+  | some k => sub.foldr (fun r acc => attachUnder k r.1 r.2 acc) f
+
+/-- `ParticleGibbsSubtreeSampler.sample_tree`: pick a data point that is not an outlier, take the
+parent of its clone as the root of the region (the virtual root if the clone is top-level), run the
+conditional SMC on that subtree together with all outliers, then re-weight every particle by the
+ratio of the full tree's density to the subtree's (`_correct_weights`) before the final draw.  With
+every data point an outlier the whole-tree update is used. -/
+def subtreeMove (r : SMC.Run) (x : T) : Dist T :=
+  let dps := x.f.all
+  if dps.isEmpty then SMC.pgStep r x
+  else
+    Dist.norm (Dist.bind (Dist.uniform dps) fun i =>
+      let (region, remaining, graftKey) : DF × DF × Option Nat :=
+        match parentOf i x.f with
+        | none => (x.f, Orders.Forest.nil, none)
+        | some (pd, pk) =>
+          let key := pd.headD 0
+          (Orders.Forest.cons pd pk .nil, removeSub key x.f, (parentOf key x.f).map fun g => g.1.headD 0)
+      let xs := T.mk' region x.out
+      Dist.bind (Dist.norm (sampleOrder xs.f xs.out)) fun σ =>
+        Dist.bind (SMC.csmc r xs σ) fun sw =>
+          Dist.categorical (sw.map fun (tw : T × Rat) =>
+            let full := T.mk' (attachAll graftKey tw.1.f.roots remaining) tw.1.out
+            (full, tw.2 / Density.pOne r.dt r.c.α tw.1.f tw.1.out * Density.pOne r.dt r.c.α full.f full.out)))
+
 end Moves
 end PhyModel
